@@ -296,6 +296,8 @@ var plans = map[string]Plan{
 		Units: []Unit{
 			{Name: "c04", Run: "^TestC04$", Rapid: true, Shards: [2]int{10, 16}, Checks: [2]int{3000, 15000}, Lab: &LabSpec{Kind: "value", Programs: [2]int{16, 120}}},
 			{Name: "c04-encode", Run: "^TestC04Encode$", Rapid: true, Shards: [2]int{4, 8}, Checks: [2]int{1500, 10000}, Lab: &LabSpec{Kind: "value", Programs: [2]int{16, 120}}},
+			// the two decoding paths on messages with one very long unknown field (shared with C05; both must accept, with equal values)
+			{Name: "c05-big", Run: "^TestC05Big$", Shards: [2]int{1, 2}, Lab: &LabSpec{Kind: "value", Programs: [2]int{16, 120}}},
 		},
 	},
 	"C05": {
